@@ -5,6 +5,7 @@ import (
 	"context"
 	"encoding/json"
 	"fmt"
+	pubsub "github.com/libp2p/go-libp2p-pubsub"
 	"os"
 	"path/filepath"
 	"reflect"
@@ -398,6 +399,9 @@ func pubsubCase(c *fw.Ctx, idx int) {
 		return &sim.NetPeer{Idx: i, Key: gen.Key(base + i), Dir: filepath.Join(dir, name)}
 	}
 	U, C, B := mk(0, "U"), mk(1, "C"), mk(2, "B")
+	// the replica under test runs on the host, pubsub router and signature policy the
+	// code itself builds (NewClusterHost); the others on harness-built hosts with gaters
+	B.RealHost = true
 	var hosts []host.Host
 	for _, p := range []*sim.NetPeer{U, C, B} {
 		if err := p.PrepareHost(ctx); err != nil {
@@ -445,8 +449,7 @@ func pubsubCase(c *fw.Ctx, idx int) {
 	}
 	defer B.Node.Close()
 	if relay {
-		B.Gater.Block(U.ID)
-		U.Gater.Block(B.ID)
+		U.Gater.Block(B.ID) // refuses B in both directions; B's own host has no gater
 	}
 	sim.ConnectAll(ctx, hosts)
 	round := 700 * time.Millisecond // two rebroadcast intervals of 300 ms and change
@@ -514,5 +517,44 @@ func pubsubCase(c *fw.Ctx, idx int) {
 	if hasPin(ctx, B, z) {
 		c.Violation("C07/pubsub/distrust-call-not-followed", "after Distrust(U) the replica still applied U's update", nil)
 	}
-	c.Sample(map[string]interface{}{"family": "pubsub", "phases": []string{"untrusted ignored", "trust followed", "distrust followed"}})
+	// phase 4: forged author. B now trusts C. A peer F that nobody trusts runs a pubsub
+	// router that does not sign and writes C's id into the author field of what it
+	// publishes. A control replica D whose router accepts unsigned messages (and which
+	// trusts C as B does) shows that the forgery as such works.
+	if err := B.Node.Consensus.Trust(ctx, C.ID); err != nil {
+		c.Inconclusive("Trust: " + err.Error())
+		return
+	}
+	F, D := mk(3, "F"), mk(4, "D")
+	F.PubSubOpts = []pubsub.Option{pubsub.WithMessageSignaturePolicy(pubsub.LaxNoSign), pubsub.WithMessageAuthor(C.ID)}
+	D.PubSubOpts = []pubsub.Option{pubsub.WithMessageSignaturePolicy(pubsub.LaxNoSign)}
+	for _, p := range []*sim.NetPeer{F, D} {
+		if err := p.PrepareHost(ctx); err != nil {
+			c.Inconclusive("host: " + err.Error())
+			return
+		}
+	}
+	if !start(F, nil, true) {
+		return
+	}
+	defer F.Node.Close()
+	if !start(D, []peer.ID{C.ID}, false) {
+		return
+	}
+	defer D.Node.Close()
+	sim.ConnectAll(ctx, []host.Host{F.Host, B.Host, D.Host})
+	w, ok := pinAt(F, 4)
+	if !ok {
+		return
+	}
+	if !waitFor(30*time.Second, func() bool { return hasPin(ctx, D, w) }) {
+		c.Inconclusive("the forged update never reached the lax control replica")
+		return
+	}
+	time.Sleep(round + 2*time.Second)
+	c.Eval("pubsub/unsigned-forged-author-ignored")
+	if hasPin(ctx, B, w) {
+		c.Violation("C07/pubsub/untrusted-update-applied/unsigned-with-forged-author", "a replica applied a pin published without signature by an untrusted peer that wrote a trusted peer's id into the author field (a control replica with lax verification got it too)", nil)
+	}
+	c.Sample(map[string]interface{}{"family": "pubsub", "phases": []string{"untrusted ignored", "trust followed", "distrust followed", "unsigned forged author ignored"}})
 }
